@@ -1,14 +1,26 @@
-(* Property C19 — Deserialize never panics on corrupt or truncated bytes
-   Statement-level file; see DESIGN.md §6 C19.  Model-level theorems are under
-   proof in Proofs/ (see obligations.json); this file carries the tie
-   obligations and what is proved so far; the property is decided on every run
-   by the correspondence described in DESIGN.md. *)
-From SJ Require Import Model.Base Model.RefTables Spec.Json Model.Tape Model.Iter Model.Serialize Model.FloatFmt Model.Marshal Tie.GoTablesTie Tie.SerializeTie.
+(* Property C19 — Deserialize never panics on corrupt or truncated bytes.
+   Proved on the model of the framing and the tape reconstruction
+   (Model/Serialize.v): for EVERY byte string the outcome is an error or a
+   result, never an out-of-range access and never non-termination. *)
+From SJ Require Import Model.Base Model.RefTables Model.Serialize Proofs.DeserSafe Tie.GoTablesTie Tie.SerializeTie.
 Open Scope N_scope.
-Definition C19_full : Prop :=
-  forall src, deser_blob src <> DCrash /\ deser_blob src <> DFuel.
+
+Theorem C19_deser_blob_no_crash : forall src, deser_blob src <> DCrash /\ deser_blob src <> DFuel.
+Proof. exact deser_blob_no_crash. Qed.
+
+(* the reconstruction alone, for any destination tape (fresh or reused), any
+   tag stream and any value bytes *)
+Theorem C19_deser_core_no_crash : forall init tags vals,
+  deser_core init tags vals <> Crash /\ deser_core init tags vals <> OutOfFuel.
+Proof. exact deser_core_no_crash. Qed.
+
+Theorem C19_deser_core_length : forall init tags vals t, deser_core init tags vals = Ok t -> length t = length init.
+Proof. exact deser_core_length. Qed.
+
 Theorem C19_tie_serializer_consts : gen.Consts.gen_serializedVersion = serializedVersion /\ gen.Consts.gen_tagFloatWithFlag = tagFloatWithFlag.
 Proof. destruct tie_serializer_consts as (_ & B & _ & _ & _ & _ & _ & H). exact (conj B H). Qed.
 Theorem C19_tie_open_close : tab_diff gen.Tables.gen_tagOpenToClose tagOpenToClose_ref 256 = [].
 Proof. exact tie_tagOpenToClose. Qed.
-Print Assumptions C19_tie_serializer_consts.
+
+Print Assumptions C19_deser_blob_no_crash.
+Print Assumptions C19_deser_core_no_crash.
